@@ -240,11 +240,13 @@ inductive BDec where
 /-- the validation loop of the checkpoint branch (parallel_sync.go:72-79).  The parent test of
 `ValidateHeader` compares with `cs.Index.ID`, which `ApplyBlock` takes from the block itself,
 so linkage is checked whatever state was supplied; everything else is only as good as the
-state: on a state that is not genuine the adversary decides (worst case: passes). -/
+state: on a state that is not genuine the adversary decides (worst case: passes).  The
+future-timestamp policy (`MaxFutureTimestamp`, repaired: this path applied none, unlike
+`AddBlocks`) depends on the block and the clock only. -/
 def validateChain (U : Univ) (genuine : Bool) : Nat → List Nat → Bool
   | _, [] => true
   | cs, b :: bs =>
-    ((U b).parent == (U cs).cid) && (!genuine || (U b).body) && validateChain U genuine b bs
+    ((U b).parent == (U cs).cid) && !(U b).future && (!genuine || (U b).body) && validateChain U genuine b bs
 
 /-- `workFn` (parallel_sync.go:53-107). -/
 def gateBatch (U : Univ) (cfg : Cfg) (req : Req) (r : BResp) : BDec :=
@@ -383,6 +385,25 @@ def run (U : Univ) (cfg : Cfg) : Node → List Ev → Node
   | n, [] => n
   | n, e :: es => run U cfg (step U cfg n e).1 es
 
+/-! ## An honest peer's answers (the serving side of `handleRPC`, peer.go:275-351)
+
+`pb` is the peer's best chain, tip first.  `Manager.Headers` serves the headers above an index
+that is on the best chain and fails otherwise (the stream is closed: the requester sees EOF);
+`BlocksForHistory` serves the blocks above the attach point; `SendCheckpoint` serves the block
+and the state it was built on. -/
+
+def serveHeaders (pb : List Nat) (id : Nat) : HResp :=
+  if pb.contains id then .hdrs ((pb.takeWhile (· != id)).reverse) 0 else .eof
+
+def serveBatch (q : Req) : BResp := ⟨some ⟨q.base, true, true, true, true⟩, some q.hdrs⟩
+
+/-- one `syncLoop` iteration of node `n` against an honest peer whose best chain is `pb` -/
+def honestRound (U : Univ) (cfg : Cfg) (n : Node) (pb : List Nat) : Node :=
+  let hs := (history n.best).map (serveHeaders pb)
+  match headerPhase U (history n.best) hs with
+  | (.go base hdrs _, _) => (stepSync U cfg n hs ((mkReqs U cfg.perReq base hdrs).map serveBatch)).1
+  | _ => n
+
 /-! ## Abstract gossip (C12)
 
 A system is a number of nodes `N`, each holding a tip (its best chain is the tip's ancestry in
@@ -395,6 +416,15 @@ def pull (U : Univ) (σ : Nat → Nat) (e : Nat × Nat) : Nat → Nat :=
 def runSched (U : Univ) (σ0 : Nat → Nat) (sched : Nat → Nat × Nat) : Nat → Nat → Nat
   | 0 => σ0
   | k + 1 => pull U (runSched U σ0 sched k) (sched k)
+
+/-- the **concrete** gossip system: every node holds a full node state; in step `(i, j)` node `i`
+runs one real sync round (`honestRound`) against the best chain `j` holds at that moment -/
+def pullC (U : Univ) (cfg : Cfg) (σ : Nat → Node) (e : Nat × Nat) : Nat → Node :=
+  fun x => if x = e.1 then honestRound U cfg (σ e.1) (σ e.2).best else σ x
+
+def runSchedC (U : Univ) (cfg : Cfg) (σ0 : Nat → Node) (sched : Nat → Nat × Nat) : Nat → Nat → Node
+  | 0 => σ0
+  | k + 1 => pullC U cfg (runSchedC U cfg σ0 sched k) (sched k)
 
 /-- executable version over a list of tips and a finite schedule (used by the driver) -/
 def pullL (U : Univ) (tips : List Nat) (e : Nat × Nat) : List Nat :=
